@@ -34,6 +34,18 @@ type multicastProxy struct {
 
 	multicastLock sync.Mutex
 	members       []io.Closer
+
+	// 所属的流: the stream this proxy was created for. The path alone does not
+	// identify it once another publisher has taken the path.
+	stream *media.Stream
+}
+
+// source returns the stream the proxy consumes from.
+func (proxy *multicastProxy) source() *media.Stream {
+	if proxy.stream != nil {
+		return proxy.stream
+	}
+	return media.Get(proxy.path)
 }
 
 func (proxy *multicastProxy) AddMember(m io.Closer) {
@@ -41,7 +53,7 @@ func (proxy *multicastProxy) AddMember(m io.Closer) {
 	defer proxy.multicastLock.Unlock()
 
 	if len(proxy.members) == 0 {
-		stream := media.Get(proxy.path)
+		stream := proxy.source()
 		if stream == nil {
 			proxy.logger.Error("start multicast proxy failed.")
 			return
@@ -147,7 +159,7 @@ func (proxy *multicastProxy) close() {
 	}
 	proxy.closed = true
 
-	stream := media.Get(proxy.path)
+	stream := proxy.source()
 	if stream != nil {
 		stream.StopConsume(proxy.cid)
 	}
